@@ -66,17 +66,17 @@ def check(tier, seed, replay=None):
                 s_["off"] = (-1 if c["sense"] == "max" else 1) * int(0.8 * big)
                 shifted.append(s_)
         cases += shifted
-        # ... and the shifted knapsacks again in units of 1/32: the visible optimum lies inside (-1, 1), where a gap test
+        # ... and the shifted knapsacks again in units of 1/256: the visible optimum lies inside (-1, 1), where a gap test
         # with a floor of 1 under the denominator (gap * max(|value|, 1)) is an absolute test in disguise
         small = []
         for c in shifted:
             if c["id"].startswith("Knap"):
                 s_ = copy.deepcopy(c)
                 s_["id"] = c["id"] + "s"
-                s_["den"] = c.get("den", 1) * 32
+                s_["den"] = c.get("den", 1) * 256
                 for r in s_["rows"]:          # the rows keep their meaning: a.x <= b is scale-free
-                    r["a"] = [a * 32 for a in r["a"]]
-                    r["b"] = r["b"] * 32
+                    r["a"] = [a * 256 for a in r["a"]]
+                    r["b"] = r["b"] * 256
                 small.append(s_)
         meta["shifted_small"] = {"cases": len(small)}
         cases += small
@@ -85,7 +85,7 @@ def check(tier, seed, replay=None):
         # towards zero from above: the gap test of a minimisation has the bound BELOW the incumbent
         covering = []
         for c in cases:
-            if c["id"].startswith("Knap") and not c["id"].endswith("_off") and c["sense"] == "max" and all(v["kind"] == "bool" for v in c["vars"]) \
+            if c["id"].startswith("Knap") and not c["id"].endswith("_off") and not c["id"].endswith("_offs") and c["sense"] == "max" and all(v["kind"] == "bool" for v in c["vars"]) \
                     and all(r["cmp"] == "le" for r in c["rows"]):
                 big = sum(abs(x) for x in c["obj"])
                 for k, frac in enumerate((0.3, 0.5, 0.7)):
